@@ -89,7 +89,7 @@ func histGenerate(ctx *core.Ctx, exhaustLen, nSeeded, maxLen int, stream uint64,
 func c03Run(ctx *core.Ctx) {
 	exLen, nSeeded, maxLen := 2, 90000, 16
 	if ctx.Thorough() {
-		exLen, nSeeded, maxLen = 3, 600000, 20
+		exLen, nSeeded, maxLen = 3, 2500000, 24
 	}
 	ctx.Rule = fmt.Sprintf("lock-step command histories over %d abstract commands (valid / backend-rejected / malformed / out-of-order variants of HELO EHLO LHLO MAIL RCPT DATA BDAT RSET NOOP VRFY AUTH STARTTLS QUIT unknown): ALL histories of length <=%d appended to each of 9 prefix states (fresh, greeted, MAIL accepted, RCPT accepted, RCPT rejected, mid-BDAT, after finished DATA, after failed DATA, after STARTTLS) in 6 configurations ({SMTP, LMTP} x MaxRecipients {0,2}, and two with MaxMessageBytes=1000 where the *_BIG commands exceed the limit), plus %d seeded histories of length 3..%d; a transaction-monitor automaton driven by the observed replies judges every callback. Non-trivial: at least three backend callbacks were observed; distinct by (configuration, history).", len(histAlphabet), exLen, nSeeded, maxLen)
 	ctx.Assumptions = []string{"a second MAIL inside an open transaction taints the transaction (not judged)", "Reset is required only when a sender had been accepted", "lock-step: the next command is sent only when the server is parked waiting for input"}
